@@ -928,8 +928,27 @@ fn threaded_case(case_seed: u64, rep: &mut Report) {
     }
 }
 
+/// `c03 witness`: the defect found on the pinned tree as a hand-written minimal sequence against
+/// the real participant (prints what happens; no oracle involved).
+fn witness() {
+    let p = TxParticipant::new(TensorStore::new());
+    let a = vec![Transaction::Put { key: "table:tb".into(), data: b"A".to_vec() }];
+    let b = vec![Transaction::TableInsert { table: "tb".into(), values: b"B".to_vec() }];
+    println!("lock names: A = Put(table:tb) locks {:?}, B = TableInsert(tb) locks {:?}; both write storage key {:?} / {:?}", a[0].affected_key(), b[0].affected_key(), a[0].storage_key(), b[0].storage_key());
+    println!("prepare(A=1) -> yes: {}", matches!(p.prepare(prepare_request(1, &a)), PrepareVote::Yes { .. }));
+    println!("prepare(B=2) -> yes: {}", matches!(p.prepare(prepare_request(2, &b)), PrepareVote::Yes { .. }));
+    println!("coordinator commits B: participant.commit(2) -> success {}", p.commit(2).success);
+    println!("store: {:?}", snapshot(p.store()));
+    println!("coordinator aborts A (e.g. timeout): participant.abort(1) -> success {}", p.abort(1).success);
+    println!("store: {:?}   <- B was committed and applied, its write is gone", snapshot(p.store()));
+}
+
 fn main() {
     let args = Args::parse();
+    if args.rest.iter().any(|a| a == "witness") {
+        witness();
+        return;
+    }
     let started = Instant::now();
     quiet_panics();
     let mut total = Report::new();
@@ -983,7 +1002,7 @@ fn main() {
             ]);
         }
         if mode == "both" || mode == "threaded" {
-            floors.extend([("threaded_cases", 100u64), ("threaded:decided:commit", 30), ("threaded:decided:abort", 50)]);
+            floors.extend([("threaded_cases", 40u64), ("threaded:decided:commit", 15), ("threaded:decided:abort", 20)]);
         }
     }
     let meta = Meta {
